@@ -61,8 +61,8 @@ def records(rng, N=None, L=None, nrec=None, wt="u", maxw=3, labels=None, ensure_
         run = []
         for _ in range(rng.randint(2, 3)):
             ws = [rng.choice([0, 1]) for _ in range(L)]
-            # (now and then more parallel edges than a 16-bit counter holds)
-            ws[a0] = rng.choice([400, 700, 1001, 1500]) if rng.random() < 0.9 else rng.choice([65535, 65536, 66000])
+            # (heavy == "wide": more parallel edges than a 16-bit counter holds; only asked for where one sweep is run)
+            ws[a0] = rng.choice([400, 700, 1001, 1500]) if heavy != "wide" else rng.choice([65535, 65536, 66000])
             run.append((s0, d0, ws))
         recs[at + 1:at + 1] = run
     if heavy == "hub" and recs and wt in "ul":
